@@ -172,9 +172,9 @@ def check_props_file(props):
                 missing_print=missing_print, log=out[-4000:], nonexact=sloppy)
 
 
-def cargo_build(bins, release=False):
+def cargo_build(bins, release=False, crate_dir="harness"):
     cmd = "cargo build --offline " + ("--release " if release else "") + " ".join("--bin " + b for b in bins)
-    return sh(cmd, cwd=os.path.join(ROOT, "harness"), timeout=3000,
+    return sh(cmd, cwd=os.path.join(ROOT, crate_dir), timeout=3000,
               env={"RUSTFLAGS": "--cfg " + GUARD, "CARGO_TARGET_DIR": os.path.join(CACHE, "target")})
 
 
@@ -319,7 +319,7 @@ def check_locked(pid, tier="quick", seed=None, extra_env=None):
     shard_results = []
     case_dir = os.path.join(CACHE, "cases", pid)
     bins = spec.get("bins", [spec["bin"]])
-    rcb, outb, dt_build = cargo_build(bins, release=spec.get("release", False))
+    rcb, outb, dt_build = cargo_build(bins, release=spec.get("release", False), crate_dir=spec.get("crate_dir", "harness"))
     if rcb != 0:
         broken.append({"kind": "broken-correspondence", "what": "harness does not build against /repo's current tree", "log": outb[-3000:]})
     else:
@@ -447,19 +447,20 @@ def setup():
     print("coq build (%d targets): rc=%d %.0fs" % (len(set(targets)), rc, dt))
     if rc != 0:
         print(out[-3000:])
-    bins = sorted({b for s in use.values() for b in s.get("bins", [s["bin"]]) if not s.get("release")})
-    rc2, out2, dt2 = cargo_build(bins)
-    print("cargo build (%d bins): rc=%d %.0fs" % (len(bins), rc2, dt2))
-    if rc2 != 0:
-        print(out2[-3000:])
-        # fall back to building bins one by one so that one broken bin does not block the others
-        for b in bins:
-            r, o, _ = cargo_build([b])
-            print("  bin %s rc=%d" % (b, r))
-    rbins = sorted({b for s in use.values() for b in s.get("bins", [s["bin"]]) if s.get("release")})
-    if rbins:
-        rc3, out3, dt3 = cargo_build(rbins, release=True)
-        print("cargo build --release (%d bins): rc=%d %.0fs" % (len(rbins), rc3, dt3))
+    crates = sorted({s.get("crate_dir", "harness") for s in use.values()})
+    for cd in crates:
+        for rel in (False, True):
+            bins = sorted({b for s in use.values() for b in s.get("bins", [s["bin"]])
+                           if bool(s.get("release")) == rel and s.get("crate_dir", "harness") == cd})
+            if not bins:
+                continue
+            rc2, out2, dt2 = cargo_build(bins, release=rel, crate_dir=cd)
+            print("cargo build %s%s (%d bins): rc=%d %.0fs" % (cd, " --release" if rel else "", len(bins), rc2, dt2))
+            if rc2 != 0:
+                print(out2[-3000:])
+                for b in bins:
+                    r, o, _ = cargo_build([b], release=rel, crate_dir=cd)
+                    print("  bin %s rc=%d" % (b, r))
     return 0
 
 
